@@ -199,13 +199,25 @@ impl StateRead for ModelView<'_> {
         key: Key,
         num_values: usize,
     ) -> Result<Vec<Vec<Word>>, SimErr> {
-        if num_values > READ_CAP {
+        let c = contract_addr.0;
+        let touched = self.overlay.map(|o| o.keys().any(|(oc, _)| *oc == c)).unwrap_or(false);
+        // The device's own cap on one request applies where the range reaches the device as one
+        // request. For a contract the set proposes values for, every key of the range has a value
+        // however long the range is (the device is at most asked key by key) — up to a length
+        // beyond which the model declines to have an opinion.
+        if num_values > READ_CAP && !touched {
             return Err(SimErr {
                 id: ERR_TOO_MANY,
                 what: "too many".into(),
             });
         }
-        let c = contract_addr.0;
+        if num_values > 64 * READ_CAP {
+            UNUSABLE.with(|u| *u.borrow_mut() = Some("a post-state read of an astronomically long range".into()));
+            return Err(SimErr {
+                id: ERR_TOO_MANY,
+                what: "too many".into(),
+            });
+        }
         let mut out = Vec::new();
         let mut k = key;
         // a bad key anywhere in the range fails the whole request
